@@ -223,6 +223,8 @@ def labels(tier, seed):
         return s
     yield 'N'
     yield 'X'
+    for degenerate in ('', ' ', ':', '/', '()', 'C:', 'C/', 'C:()', ':maj', '\n'):
+        yield degenerate
     for root in roots_all:
         for sh in shorts:
             yield mk(root, sh, None, None)
